@@ -1,7 +1,7 @@
 (* C13 — transient buffer exhaustion during send is absorbed or reported, never damaging.
    `faults` is the ENOBUFS/EPIPE oracle: one entry per transmission attempt, ARBITRARY (not 2^10 patterns). *)
 From Coq Require Import ZArith List Lia.
-From IPC Require Import U64 Params Frag ParamsFacts FragProofs FragMore.
+From IPC Require Import U64 Params Frag ParamsFacts FragProofs FragMore FragRetry.
 Import ListNotations.
 Open Scope Z_scope.
 
@@ -44,6 +44,16 @@ Print Assumptions C13_downsize.
 Theorem C13_gives_up_only_small : forall sb sent, downsize sb sent = None -> sent <= 2000.
 Proof. exact downsize_none. Qed.
 Print Assumptions C13_gives_up_only_small.
+
+(* buffer exhaustion cannot make a send spin: whatever the kernel answers - ENOBUFS to every attempt for ever included -
+   and whatever the length, one send() makes at most log2(S) refused attempts (every retry at least halves the estimate,
+   GENERATED `downsize`), then either gets through or reports the error.  Unlike C13_total this bound does not depend on
+   the oracle or on the message length. *)
+Theorem C13_retries_bounded : forall fuel Ss len nfds faults o evs,
+  48 <= Ss < 2 ^ 62 -> 0 <= len < 2 ^ 62 ->
+  send fuel Ss len nfds faults = (o, evs) -> retries evs <= Z.log2 Ss.
+Proof. exact send_retries_bounded. Qed.
+Print Assumptions C13_retries_bounded.
 
 (* non-vacuity: re-fragmentation of a one-packet message, a retried follow-up, giving up *)
 Example C13_ex :
